@@ -83,8 +83,11 @@ def one_case(rec, tap, rng, cid):
                            - rng.uniform(.3e-6, 1e-6)),
                      float(max(cp_user, full["contact_point"])
                            + rng.uniform(.3e-6, 1e-6))]
+    # contact point held fixed at the caller's value (measured units): the
+    # remaining problem is linear in modulus and baseline
+    cp_fixed = bool(rng.random() < .2)
     case = {"id": cid, "spec": spec, "k": k, "mode": mode, "settings": kw,
-            "cp_user": cp_user, "cp_bounds": cp_bounds}
+            "cp_user": cp_user, "cp_bounds": cp_bounds, "cp_fixed": cp_fixed}
     res = {}
     for kk in (k, 1.0):
         idnt, _ = fitlab.build_curve(spec)
@@ -96,6 +99,9 @@ def one_case(rec, tap, rng, cid):
             p0["contact_point"].set(min=cp_bounds[0], max=cp_bounds[1])
             rec.event("fits with finite contact-point bounds")
         p0["baseline"].value = 0.0
+        if cp_fixed:
+            p0["contact_point"].vary = False
+            rec.event("fits with the contact point held fixed")
         tap.clear()
         try:
             idnt.fit_model(params_initial=p0, gcf_k=kk, **copy.deepcopy(kw))
@@ -180,9 +186,16 @@ def one_case(rec, tap, rng, cid):
         # scan fits use short ranges: optimiser termination noise is larger
         # than for the final fit (worst seen on the unchanged tree 5e-4 in
         # 24000 twins); semantic breaks give O(0.1 .. 1)
-        rec.check(np.all(rel <= 1e-2), "plateau/scan-moduli-not-rescaled",
-                  "E(delta) scan: max rel. deviation of E_k k^p from E_1 = "
-                  "%.3e" % np.max(rel), case)
+        # a single scan fit that stops early (leastsq ftol) or lands in a
+        # neighbouring minimum occurs on the unchanged tree (7 of 192000
+        # twins); a semantic break shifts most entries of the scan
+        nbad = int(np.sum(rel > 1e-2))
+        rec.event("plateau scan entries deviating > 1e-2", nbad)
+        rec.check(nbad <= max(1, int(.2 * rel.size)),
+                  "plateau/scan-moduli-not-rescaled",
+                  "E(delta) scan: %d of %d well-posed entries deviate by more "
+                  "than 1e-2 (max rel. deviation of E_k k^p from E_1 = %.3e)"
+                  % (nbad, rel.size, np.max(rel)), case)
         if abs(fa["optimal_fit_delta"] - fb["optimal_fit_delta"]) > 1e-12:
             rec.event("plateau twins: selection flipped (not judged)")
             return
